@@ -300,6 +300,10 @@ impl Engine {
     /// This goes over the stored data and deletes what looks broken. It
     /// should be called before retrying a failed restartable run.
     pub fn sanitize(&self) -> Result<(), Fatal> {
+        #[cfg(routinator_verif)]
+        if crate::verif::sanitize_fails() {
+            return Err(Fatal)
+        }
         self.store.sanitize()?;
         if let Some(collector) = self.collector.as_ref() {
             collector.sanitize()?;
